@@ -15,7 +15,7 @@
             flag-extraction error arm.
 """
 from arklib import dataflow as DF, pathsim as PS
-from arklib.facts import op_local, op_place, place_parts
+from arklib.facts import op_local, op_place, place_parts, closure_args
 from rules import serflow
 
 UNITS = ["ws", "curves", "shapes"]
@@ -349,6 +349,69 @@ def check_points(res, facts):
             rc.bad(key, "check() can return Ok when %s" % "; ".join(wrong), fn.loc)
 
 
+PROJ_HEADS = ("ark_ec::models::short_weierstrass::group::Projective", "ark_ec::models::twisted_edwards::group::Projective")
+
+
+def check_valid_impls(res, facts):
+    """Valid::check / Valid::batch_check of the projective point types (what container deserialization with validation
+    calls): in each world (on curve?, in subgroup?) -- uniform over the batch -- Ok must be impossible unless both hold.
+    Evidence is the curve-equation test and the configuration's subgroup predicate, directly or through the affine
+    types' check / batch_check (decided by R-POINT.check); `all` / `any` over a closure take the closure's verdict.
+    An ad-hoc membership test (e.g. multiplying by r through an overridable raw-limb entry point) is not evidence."""
+    rule = res.rule("R-POINT.valid", "Valid::check / batch_check of projective points return Ok only when the curve equation and the subgroup predicate hold for the elements", 4)
+    for fn in facts.fns(unit="ws", crate="ark_ec"):
+        if fn.kind == "Closure" or fn.name not in ("check", "batch_check") or not (fn.trait_impl or "").endswith("Valid") or fn.self_head not in PROJ_HEADS:
+            continue
+        key = "ark_ec|%s" % fn.id[-110:]
+        closures = {c.id: c for c in facts.fns(unit="ws", crate="ark_ec") if c.kind == "Closure" and c.id.startswith(fn.id + "::{closure")}
+        table, unknown_calls = {}, set()
+        for w in WORLDS:
+            oc, sg = w
+
+            def oracle(st, bb, t, host=fn, oc=oc, sg=sg):
+                f = t["f"]
+                n = f.get("name")
+                if n == "is_on_curve":
+                    return oc
+                if n == "is_in_correct_subgroup_assuming_on_curve":
+                    return sg
+                if n in ("check", "batch_check") and (f.get("trait") or "").endswith("Valid"):
+                    return 0 if (oc and sg) else 1
+                if n == "branch" and (f.get("trait") or "").endswith("Try"):
+                    a = op_local(t["args"][0])
+                    return st.env.get(a, PS.UNKNOWN)
+                if n == "from_residual":
+                    return 1
+                if n in ("all", "any") and len(t["args"]) == 2:
+                    cids = closure_args(host, t)
+                    clo = closures.get(cids[0]) if cids else None
+                    if clo is not None:
+                        vals = set()
+                        for st2, e2 in PS.explore(clo, lambda s_, b_, t_: oracle(s_, b_, t_, host=clo), max_states=200):
+                            if e2 == "return":
+                                vals.add(st2.env.get(0, PS.UNKNOWN))
+                        if len(vals) == 1 and PS.UNKNOWN not in vals:
+                            return bool(vals.pop())
+                    return PS.UNKNOWN
+                if n in ("mul_projective", "mul_affine", "mul_bigint", "mul"):
+                    unknown_calls.add(n)
+                return PS.UNKNOWN
+            res_ = set()
+            for st, e in PS.explore(fn, oracle, max_states=2000):
+                if e == "return":
+                    res_.add(st.env.get(0, PS.UNKNOWN))
+            table[w] = (0 in res_) or (PS.UNKNOWN in res_)
+        wrong = [w for w in WORLDS if table[w] and not (w[0] and w[1])]
+        if not table[(True, True)]:
+            rule.bad(key, "valid points are rejected", fn.loc)
+        elif wrong:
+            rule.bad(key, "Ok cannot be excluded when %s: validity is not established through is_on_curve and the configuration's subgroup predicate (is_in_correct_subgroup_assuming_on_curve) on these paths%s" % (
+                "; ".join("on_curve=%s, in_subgroup=%s" % w for w in wrong),
+                (" -- an ad-hoc test through %s is not evidence: curve configurations override the raw-limb multiplications (e.g. GLV forms that reduce the scalar modulo r, turning `[r]P == 0` into a tautology)" % "/".join(sorted(unknown_calls))) if unknown_calls else ""), fn.loc)
+        else:
+            rule.ok(key, "Ok iff on-curve and in-subgroup (4 worlds)", fn.loc)
+
+
 def check_field(res, facts):
     rule = res.rule("R-FIELD", "Fp::deserialize_with_flags returns Ok only through from_bigint (range check) after the flag-extraction error arm", 1)
     for fn in facts.fns(unit="ws", crate="ark_ff"):
@@ -423,6 +486,83 @@ def check_nopanic(res, facts):
                 rule.ok(key, "no input-dependent division / unwrap", f.loc)
 
 
+def check_nopanic_flags(res, facts):
+    """the flag bits come from the input: for EVERY flag value (and either outcome of the zero tests on the decoded
+    coordinate) no path of the compressed reader reaches `unwrap` / `expect` on an Option that is None in that world.
+    Worlds are enumerated by assuming every value of the flags type to be one variant (typed world assumption);
+    is_positive / is_negative / is_infinity are answered from their own bodies evaluated on that variant."""
+    from arklib import pathsim as PS
+    rule = res.rule("R-NOPANIC.flags", "point readers: no unwrap of a flag-derived Option that is None for some flag value of the input", 2)
+    for model, fty in (("short_weierstrass", "ark_ec::models::short_weierstrass::serialization_flags::SWFlags"), ("twisted_edwards", "ark_ec::models::twisted_edwards::serialization_flags::TEFlags")):
+        # variant -> discriminant bits, from the aggregates that build the variants
+        discr = {}
+        helpers = {}
+        for f in facts.fns(unit="ws", crate="ark_ec"):
+            if f.kind == "Closure":
+                continue
+            for bi, si, st_ in f.stmts():
+                r = st_.get("r")
+                if r and r.get("k") == "agg" and r.get("adt") == fty and r.get("variant"):
+                    discr[r["variant"]] = r.get("dv", r.get("vidx"))
+            if f.self_head == fty and f.name in ("is_positive", "is_negative", "is_infinity") and not f.trait_impl:
+                helpers[f.name] = f
+        readers = [f for f in facts.fns(unit="ws", crate="ark_ec") if f.kind != "Closure" and f.name == "deserialize_with_mode" and ("models::%s::" % model) in f.id and f.default_of]
+        if not discr or not readers:
+            rule.bad("ark_ec|%s|flags" % model, "anchor missing (flag variants / reader)")
+            continue
+        # truth tables of the helpers per variant
+        table = {}
+        for hn, h in helpers.items():
+            for v, d in discr.items():
+                outs = set()
+                for st, e in PS.explore(h, lambda st, bb, t: PS.UNKNOWN, init={1: d}, max_states=100):
+                    if e == "return":
+                        outs.add((st.env.get(0, PS.UNKNOWN), st.env.get((0, 0), PS.UNKNOWN)))
+                table[(hn, v)] = outs.pop() if len(outs) == 1 else None
+        for fn in readers:
+            key = "ark_ec|%s::deserialize_with_mode|flag worlds" % ("SWCurveConfig" if model == "short_weierstrass" else "TECurveConfig")
+            cpar = next((a for a in range(1, fn.d["argc"] + 1) if fn.local_ty(a) == "ark_serialize::Compress"), None)
+            bad, undec = [], []
+            for v, d in sorted(discr.items()):
+                def oracle(st, bb, t, v=v):
+                    n = t["f"].get("name")
+                    if n in helpers:
+                        r = table.get((n, v))
+                        if r is None or r[0] is PS.UNKNOWN:
+                            return PS.UNKNOWN
+                        if fn_ret_is_option(helpers[n]):
+                            return PS.Adt(r[0], [r[1]])
+                        return r[0]
+                    if n in ("unwrap", "expect") and t["args"] and not t.get("mac"):
+                        l = op_local(t["args"][0])
+                        if l is not None and st.env.get(l, PS.UNKNOWN) == 0 and fn.local_ty(l).startswith("core::option::Option"):
+                            st.tags.append((bb, "unwrap-of-None"))
+                        return st.env.get((l, 0), PS.UNKNOWN) if l is not None else PS.UNKNOWN
+                    if n == "branch":
+                        return 0
+                    if n in ("ok_or", "ok_or_else"):
+                        return 0
+                    return PS.UNKNOWN
+                for comp in ((0, 1) if cpar else (None,)):
+                    init = {cpar: comp} if cpar else {}
+                    ends = PS.explore(fn, oracle, init=init, max_states=8000, by_type={fty: d})
+                    if any(e == "cut" for _, e in ends):
+                        undec.append(v)
+                    for st, e in ends:
+                        if any(tag == "unwrap-of-None" for _, tag in st.tags):
+                            bad.append((v, "compressed" if comp == 0 else "uncompressed" if comp == 1 else "any"))
+            if bad:
+                rule.bad(key, "with flag bits %s the reader reaches unwrap()/expect() on an Option that is None: a byte string carrying those flag bits makes deserialization panic instead of returning an error (worlds: %s)" % (sorted({b[0] for b in bad}), sorted(set(bad))), fn.loc)
+            elif undec:
+                rule.undecided(key, "path enumeration cut for flag worlds %s" % undec, fn.loc)
+            else:
+                rule.ok(key, "%d flag worlds x compress arms: no unwrap of None reachable" % len(discr), fn.loc)
+
+
+def fn_ret_is_option(fn):
+    return fn.local_ty(0).startswith("core::option::Option")
+
+
 def run(ctx, res):
     facts = ctx.facts(UNITS)
     res.analysed = facts.stats()
@@ -431,7 +571,9 @@ def run(ctx, res):
     serflow.check_flow(rc, rv, facts, UNITS)
     check_points(res, facts)
     check_field(res, facts)
+    check_valid_impls(res, facts)
     check_nopanic(res, facts)
+    check_nopanic_flags(res, facts)
     # batched validation (Valid::batch_check, parallel arm included) must visit every element
     from rules import c14
     c14.check_tail(res, ctx.facts(["ws", "par", "shapes"]))
